@@ -220,7 +220,7 @@ CHECKS = {
         "the setters, renormalisation, numpy error-state changes): after every step all pooled arguments/shells are "
         "bit-identical to the model, numpy.geterr() is what the machine set, a valid call equals the same call on never "
         "shared copies, shells are unit-normalised as constructed and after assign_norm_cont(). "
-        ' Includes a thresholded electrostatic potential on a 3003-point grid (results must not depend on the process history) and a rule that repeats a call on the same objects after changing the contents of one of them in place, no other call intervening.',
+        ' Includes a thresholded electrostatic potential on a 3003-point grid (results must not depend on the process history) and a rule that repeats a call on the same objects after changing the contents of one of them in place, no other call intervening; pooled density matrices symmetric only to round-off in half of the histories.',
         "Histories up to 20 (quick) / 30 (thorough) steps; only object kinds in the pool (incl. shells imported through "
         "from_iodata from two stand-in molecules with different conventions, and in-place changes of shell arrays). Failing histories are stored as "
         "plain step lists and replayed through the same interpreter without Hypothesis. D7 and D9 were found here / in C18. "
